@@ -48,6 +48,30 @@ def _rl_corrupt(evs, profile):
     return None
 
 
+def _cb_corrupt(evs, profile):
+    out = [dict(e) for e in evs]
+    if profile == 'ProfC03':
+        # a call rejected by the open breaker is shown as having reached the inner service
+        for e in out:
+            if e.get('e') == 'poll' and e.get('kind') == 'open' and e.get('sync') == 'open':
+                e['ns'] = 1
+                return out
+        return None
+    if profile == 'ProfC09':
+        # a caller rejected while half-open is shown as admitted
+        for e in out:
+            if e.get('e') == 'poll' and e.get('sync') == 'half' and e.get('ns') == 0 and e.get('res') in ('err', 'ok') and e.get('kind', 'open') == 'open' and 'nd' in e and e['nd'] == 0:
+                e['ns'] = 1
+                return out
+        return None
+    # C04: the lock-free view disagrees once
+    for e in out[1:]:
+        if e.get('sync') == 'open':
+            e['sync'] = 'closed'
+            return out
+    return None
+
+
 COMPONENTS = {
     'bulkhead': {
         'spec_files': ['Bulkhead.tla', 'MC_Bulkhead.tla', 'Trace_Bulkhead.tla'],
@@ -69,11 +93,26 @@ COMPONENTS = {
         'random': {'quick': [{'runs': 1500}], 'thorough': [{'runs': 20000}, {'runs': 5000, 'size': 'quick'}]},
         'corrupt': _rl_corrupt,
     },
+    'circuitbreaker': {
+        'spec_files': ['CircuitBreaker.tla', 'MC_CircuitBreaker.tla', 'Trace_CircuitBreaker.tla'],
+        'mc': {'quick': [{'cfg': 'MC_CB_seq_q.cfg', 'module': 'MC_CircuitBreaker'}, {'cfg': 'MC_CB_conc_q.cfg', 'module': 'MC_CircuitBreaker'}],
+               'thorough': [{'cfg': 'MC_CB_seq.cfg', 'module': 'MC_CircuitBreaker', 'timeout': 3000}, {'cfg': 'MC_CB_conc_q.cfg', 'module': 'MC_CircuitBreaker'}]},
+        'gen': {'cfg': 'Gen_CB_conc.cfg', 'module': 'MC_CircuitBreaker', 'num': {'quick': 400, 'thorough': 5000}, 'depth': 45},
+        'trace_module': 'Trace_CircuitBreaker', 'trace_cfg_tmpl': 'Trace_CircuitBreaker.cfg.tmpl',
+        'harness': 'circuitbreaker',
+        'random': {'quick': [{'runs': 1500, 'args': ['--variant', 'conc']}], 'thorough': [{'runs': 20000, 'args': ['--variant', 'conc']}]},
+        'corrupt': _cb_corrupt,
+    },
 }
 
 PROPS = {
     'C01': {'comp': 'bulkhead', 'profile': 'ProfC01', 'drift_profile': 'ProfAll'},
     'C07': {'comp': 'bulkhead', 'profile': 'ProfC07', 'drift_profile': 'ProfAll'},
+    'C03': {'comp': 'circuitbreaker', 'profile': 'ProfC03', 'drift_profile': 'ProfAll'},
+    'C09': {'comp': 'circuitbreaker', 'profile': 'ProfC09', 'drift_profile': 'ProfAll'},
+    'C04': {'comp': 'circuitbreaker', 'profile': 'ProfC04',
+            'gen': {'cfg': 'Gen_CB_seq.cfg', 'module': 'MC_CircuitBreaker', 'num': {'quick': 400, 'thorough': 5000}, 'depth': 45},
+            'random': {'quick': [{'runs': 1200, 'args': ['--variant', 'seq']}], 'thorough': [{'runs': 6000, 'args': ['--variant', 'seq']}, {'runs': 3000, 'size': 'quick', 'args': ['--variant', 'seq']}]}},
     'C02': {'comp': 'ratelimiter', 'profile': 'ProfC02', 'drift_profile': 'ProfAll'},
     'C15': {'comp': 'ratelimiter', 'profile': 'ProfC15', 'drift_profile': 'ProfAll'},
 }
